@@ -149,6 +149,9 @@ func runSeq(c *corr.Ctx, sc *SeqCase, name string) {
 		return f()
 	}
 	for _, op := range sc.Ops {
+		if n := len(cs.Impl); n > 0 && cs.Impl[n-1] == "panic" {
+			break // the panic left the mutex locked: the ring is unusable
+		}
 		switch op.K {
 		case "push":
 			add(fmt.Sprintf("ring push %d", op.ID), guard(func() string {
@@ -334,6 +337,9 @@ func newSweep(c *corr.Ctx) {
 	for i := 0; i < 200; i++ {
 		try(c.Rng.Uint64())
 	}
-	// a size-0 ring exists (New accepts 0) and every access panics except Close / Pull-after-Close
-	runSeq(c, &SeqCase{Kind: "seq", Size: 0, Ops: []SeqOp{{K: "push", ID: 1}, {K: "pull"}, {K: "close"}, {K: "pull"}, {K: "reset"}}}, "size0")
+	// a size-0 ring exists (New accepts 0): Push / Pull on it panic (index out of range, with the
+	// mutex still held, so each access gets a fresh ring); Close, Reset and Pull-after-Close work
+	runSeq(c, &SeqCase{Kind: "seq", Size: 0, Ops: []SeqOp{{K: "push", ID: 1}}}, "size0-push")
+	runSeq(c, &SeqCase{Kind: "seq", Size: 0, Ops: []SeqOp{{K: "pull"}}}, "size0-pull")
+	runSeq(c, &SeqCase{Kind: "seq", Size: 0, Ops: []SeqOp{{K: "close"}, {K: "pull"}, {K: "reset"}, {K: "close"}}}, "size0-close")
 }
